@@ -82,7 +82,8 @@ def symPunct : List Char := ['~', '!', '@', '$', '%', '^', '&', '*', '_', '-', '
 def isSymChar (c : Char) : Bool := isLetter c || isDigit c || symPunct.contains c
 /-- printable characters (32–126 and ≥ 128) and white space: what may stand inside `"…"` and `|…|` -/
 def isPrintable (c : Char) : Bool := (32 ≤ c.toNat && c.toNat ≠ 127) || isWs c
-def isHexDigit (c : Char) : Bool := isDigit c || ('a' ≤ c && c ≤ 'f') || ('A' ≤ c && c ≤ 'F')
+def hexLetters : List Char := ['a', 'b', 'c', 'd', 'e', 'f', 'A', 'B', 'C', 'D', 'E', 'F']
+def isHexDigit (c : Char) : Bool := isDigit c || hexLetters.contains c
 def isBinDigit (c : Char) : Bool := c == '0' || c == '1'
 
 /-! ## token classes (on the characters of an atom token) -/
@@ -157,17 +158,17 @@ def decimal? (tok : String) : Option Rat :=
 
 /-- `#b…` : (value, width) -/
 def binary? (tok : String) : Option (Nat × Nat) :=
-  match tok.toList with
-  | '#' :: 'b' :: ds =>
-    if !ds.isEmpty && ds.all isBinDigit then some (ds.foldl (fun acc c => acc * 2 + digitVal c) 0, ds.length) else none
-  | _ => none
+  if isBinaryChars tok.toList then
+    let ds := tok.toList.drop 2
+    some (ds.foldl (fun acc c => acc * 2 + digitVal c) 0, ds.length)
+  else none
 
 /-- `#x…` : (value, width = 4 · digits) -/
 def hex? (tok : String) : Option (Nat × Nat) :=
-  match tok.toList with
-  | '#' :: 'x' :: ds =>
-    if !ds.isEmpty && ds.all isHexDigit then some (ds.foldl (fun acc c => acc * 16 + hexDigitVal c) 0, 4 * ds.length) else none
-  | _ => none
+  if isHexChars tok.toList then
+    let ds := tok.toList.drop 2
+    some (ds.foldl (fun acc c => acc * 16 + hexDigitVal c) 0, 4 * ds.length)
+  else none
 
 /-- characters allowed inside `|…|` -/
 def isQuotedChar (c : Char) : Bool := isPrintable c && c != '|' && c != '\\'
@@ -222,13 +223,13 @@ def classify (cs : List Char) : Except String Tok :=
   else .error ("lexical error: illegal token " ++ String.ofList cs)
 
 def stepTop (out : List Tok) (c : Char) : Except String (Mode × List Tok) :=
-  if isWs c then .ok (.top, out)
+  if isSymChar c || c == '#' || c == ':' then .ok (.run [c], out)
+  else if isWs c then .ok (.top, out)
   else if c == '(' then .ok (.top, .lp :: out)
   else if c == ')' then .ok (.top, .rp :: out)
   else if c == ';' then .ok (.comment, out)
   else if c == '"' then .ok (.str [], out)
   else if c == '|' then .ok (.bar [], out)
-  else if isSymChar c || c == '#' || c == ':' then .ok (.run [c], out)
   else .error ("lexical error: illegal character " ++ String.singleton c)
 
 def step : Mode → List Tok → Char → Except String (Mode × List Tok)
